@@ -23,6 +23,7 @@ Inductive expr :=
 | ELit (l : lit)
 | EConst (name : string)      (* constant, associated constant (T::MAX) or nullary call *)
 | ENeg (e : expr)
+| ENot (e : expr)             (* bitwise complement, !e *)
 | EParen (e : expr)
 | EBin (op : binop) (a b : expr)
 | EStr (s : list N)           (* string literal *)
@@ -81,6 +82,10 @@ Fixpoint eval_int (tn : string) (t : int_ty) (en : env) (e : expr) : option Z :=
       if signed t then
         do v <- eval_int tn t en a; if in_ty t (- v) then Some (- v) else None
       else None
+  | ENot a =>
+      (* two's complement for signed types, 2^bits - 1 - x for unsigned ones *)
+      do v <- eval_int tn t en a;
+      Some (if signed t then - v - 1 else 2 ^ bits t - 1 - v)
   | EParen a => eval_int tn t en a
   | EBin op a b =>
       do x <- eval_int tn t en a;
